@@ -728,7 +728,7 @@ def check_sim(prop, tier, seed, jobs):
     if prop == "C02" and (thorough or os.environ.get("VERIF_MIRI_IN_QUICK")) and not unlisted:
         n_m = int(os.environ.get("VERIF_MIRI_HISTORIES", "640"))
         total_m, bad_m, note = miri_crosscheck(prop, seed, n_m, jobs)
-        coverage["miri_crosscheck"] = {"histories_replayed_under_miri": total_m, "undefined_behaviour_reports": len(bad_m), "half_of_the_shards_on_32_bit_target": bool(MIRI_STATE.get("i686")), "shards_stopped_at_their_time_limit": MIRI_STATE.get("timeouts", 0), "note": note or "system allocator, observation passes off; -Zmiri-ignore-leaks"}
+        coverage["miri_crosscheck"] = {"histories_replayed_under_miri": total_m, "undefined_behaviour_reports": len(bad_m), "half_of_the_shards_on_32_bit_target": bool(MIRI_STATE.get("i686")), "shards_stopped_at_their_time_limit": MIRI_STATE.get("timeouts", 0), "note": note or "the interpreter's own allocator (exact alignment), observation passes off, histories of more than 400 calls left to the native runs; -Zmiri-ignore-leaks"}
         if bad_m:
             hist, report = bad_m[0]
             os.makedirs(REPLAYS, exist_ok=True)
